@@ -158,6 +158,7 @@ def check(ctx) -> None:
     r82(ctx)
     r83(ctx)
     r84(ctx)
+    r85(ctx)
 
 
 def r81(ctx) -> None:
@@ -393,3 +394,105 @@ def r84(ctx) -> None:
                 f'transformation AFTER validation can re-create "..", "." '
                 f'or "/" (e.g. NFKC maps U+2025 to ".." and U+FF0F to "/"), '
                 f'so the path escapes the store')
+
+
+MUTATORS_ = ('add', 'append', 'update', 'pop', 'setdefault', 'clear', 'remove',
+             'discard', 'insert', 'extend', 'popitem')
+
+
+def shared_mutable_attrs(cnode) -> list:
+    """Class-body attributes bound to a mutable container that the class's
+    own methods mutate through self./cls.: ONE object for every instance."""
+    cands = {}
+    for s_ in cnode.body:
+        v = getattr(s_, 'value', None)
+        if isinstance(s_, (ast.Assign, ast.AnnAssign)) and v is not None and (
+                isinstance(v, (ast.Dict, ast.List, ast.Set)) or (
+                    isinstance(v, ast.Call) and call_name(v) in (
+                        'dict', 'list', 'set', 'defaultdict', 'OrderedDict',
+                        'WeakValueDictionary', 'WeakSet', 'bytearray',
+                        'deque'))):
+            for t in (s_.targets if isinstance(s_, ast.Assign)
+                      else [s_.target]):
+                if isinstance(t, ast.Name) and t.id != '__slots__':
+                    cands[t.id] = s_
+    out = []
+    if not cands:
+        return out
+    rebinds = set()
+    for m in cnode.body:
+        if isinstance(m, (ast.FunctionDef, ast.AsyncFunctionDef)) and \
+                m.name == '__init__':
+            for x in ast.walk(m):
+                if isinstance(x, (ast.Assign, ast.AnnAssign)):
+                    for t in (x.targets if isinstance(x, ast.Assign)
+                              else [x.target]):
+                        if isinstance(t, ast.Attribute) and \
+                                is_name(t.value, 'self'):
+                            rebinds.add(t.attr)   # per-instance after all
+    for m in cnode.body:
+        if not isinstance(m, (ast.FunctionDef, ast.AsyncFunctionDef)):
+            continue
+        for x in ast.walk(m):
+            tgt = None
+            if isinstance(x, (ast.Assign, ast.AugAssign, ast.Delete)):
+                for t in (x.targets if not isinstance(x, ast.AugAssign)
+                          else [x.target]):
+                    base = t
+                    sub = False
+                    while isinstance(base, ast.Subscript):
+                        base, sub = base.value, True
+                    if isinstance(base, ast.Attribute) and isinstance(
+                            base.value, ast.Name) and base.value.id in (
+                                'self', 'cls') and (
+                                sub or isinstance(x, ast.AugAssign)):
+                        tgt = base.attr
+            if isinstance(x, ast.Call) and isinstance(x.func, ast.Attribute) \
+                    and x.func.attr in MUTATORS_ and isinstance(
+                        x.func.value, ast.Attribute) and isinstance(
+                        x.func.value.value, ast.Name) and \
+                    x.func.value.value.id in ('self', 'cls'):
+                tgt = x.func.value.attr
+            if tgt in cands and tgt not in rebinds:
+                out.append((tgt, cands[tgt], x))
+    return out
+
+
+def r85(ctx) -> None:
+    R = ctx.rule('R8.5', 'per-user state lives in instances, not in class '
+                 'attributes', 1)
+    n = 0
+    for rel, m in ctx.proj.modules.items():
+        if not rel.startswith(('pymap/backend/dict/', 'pymap/backend/maildir/',
+                               'pymap/backend/session.py', 'pymap/imap/',
+                               'pymap/sieve/manage/', 'pymap/selected.py',
+                               'pymap/user.py', 'pymap/token/')):
+            continue
+        for c in m.classes.values():
+            n += 1
+            seen = set()
+            for attr, decl, use in shared_mutable_attrs(c.node):
+                if attr in seen:
+                    continue
+                seen.add(attr)
+                R.fail(None, decl, f'{c.name}.{attr} is a class-level mutable '
+                       f'container mutated through instances',
+                       f'{rel}:{decl.lineno} `{txt(decl)[:60]}` is ONE '
+                       f'object shared by every {c.name} instance, and '
+                       f'line {use.lineno} mutates it through self/cls: '
+                       f'every session of every user shares it — the '
+                       f'second user to open "INBOX" gets the first user\'s '
+                       f'mailbox object (reads and writes land in another '
+                       f'user\'s directory)')
+    if n < 20:
+        raise AnchorError(f'only {n} backend/front-end classes scanned')
+    R.ok(None, None, f'{n} classes scanned', 'no shared mutable class '
+         'attribute is mutated through instances')
+    import os
+    from ..report import VERIF
+    tree = ast.parse(open(os.path.join(VERIF, 'fixtures',
+                                       'r85_positive.py')).read())
+    hits = sum(len({a for a, _, _ in shared_mutable_attrs(x)})
+               for x in ast.walk(tree) if isinstance(x, ast.ClassDef))
+    R.check(hits == 1, None, None, 'positive fixture still matches',
+            f'fixtures/r85_positive.py: {hits} hit(s), expected 1')
